@@ -884,7 +884,7 @@ def m_args_new2(I, a, t, c):
         if not (isinstance(x, Agg) and x.kind == 'fmtarg'):
             raise Unsupported('format argument %r' % (x,))
         hint = x.fields[2] if len(x.fields) > 2 else ''
-        args.append((x.fields[0] + ('@u128' if '<u128>' in hint else ('@u64' if '<u64>' in hint else '')), x.fields[1]))
+        args.append((x.fields[0] + ('@u128' if '<u128>' in hint else ('@u64' if '<u64>' in hint else ('@char' if ('<char>' in hint or '<&char>' in hint) else ''))), x.fields[1]))
     return Agg('fmtargs', 0, [tpl, args])
 
 
@@ -895,6 +895,14 @@ def _render(I, kind, v, flags=0, width=None, precision=None):
     w = None
     if '@' in kind:
         kind, w = kind.split('@')
+    if w == 'char':
+        dv = _deref(I, v)
+        if isinstance(dv, BV) and dv.val is not None:
+            sch = chr(dv.val)
+            if kind == 'debug':
+                sch = "'%s'" % sch
+            return sch + ' ' * max(0, (width or 0) - len(sch))
+        w = None
     if w and I.subst.get('IntT') != w:
         old = (I.subst.get('IntT'), I.subst.get('Self'))
         I.subst['IntT'] = w
